@@ -10,6 +10,7 @@ import (
 	"fmt"
 	"math/rand"
 	"net"
+	"sort"
 	"strings"
 	"sync"
 	"time"
@@ -23,15 +24,15 @@ func init() {
 }
 
 type drainEnv struct {
-	fs      *RefFS
-	s       *Srv
-	handles map[int]uint64
-	gates   map[string]chan struct{} // path -> release channel
-	atGate  map[string]chan struct{} // path -> signalled when the request reached the backend
-	mu      sync.Mutex
-	replies map[int]chan string
+	fs       *RefFS
+	s        *Srv
+	handles  map[int]uint64
+	gates    map[string]chan struct{} // path -> release channel
+	atGate   map[string]chan struct{} // path -> signalled when the request reached the backend
+	mu       sync.Mutex
+	replies  map[int]chan string
 	admitted map[int]int64
-	updDone chan struct{}
+	updDone  chan struct{}
 }
 
 func newDrainEnv() *drainEnv {
@@ -302,47 +303,85 @@ func genDrainCase(rng *rand.Rand, n int) []string {
 	return ops
 }
 
-// limiterFollowsUpdate: a connection opened before rate limiting is switched on must be limited afterwards.
+// limiterFollowsUpdate: a connection opened (and used) before a rate-limiting update is judged by the new
+// configuration afterwards — whether limiting was off, on with generous limits, or on with tight limits before.
 func limiterFollowsUpdate(r *Result) {
-	fs := NewRefFS()
-	n, err := absnfs.New(fs, absnfs.ExportOptions{})
-	must(err)
-	defer n.Close()
-	s, err := absnfs.NewServer(absnfs.ServerOptions{Port: 0, Hostname: "127.0.0.1", UseRecordMarking: true})
-	must(err)
-	s.SetHandler(n)
-	must(s.Listen())
-	defer s.Stop()
-	conn, err := net.DialTimeout("tcp", fmt.Sprintf("127.0.0.1:%d", s.GetPort()), 2*time.Second)
-	must(err)
-	defer conn.Close()
-	if _, err := rmCall(conn, 1, progNFS, 3, 0, nil); err != nil {
-		r.Notes = append(r.Notes, "limiter check skipped: "+err.Error())
-		return
+	gen := absnfs.DefaultRateLimiterConfig()
+	gen.GlobalRequestsPerSecond, gen.PerIPRequestsPerSecond, gen.PerIPBurstSize = 100000, 100000, 100000
+	gen.PerConnectionRequestsPerSecond, gen.PerConnectionBurstSize = 100000, 100000
+	tight := absnfs.DefaultRateLimiterConfig()
+	tight.PerIPRequestsPerSecond, tight.PerIPBurstSize = 1, 2
+	tight.PerConnectionRequestsPerSecond = 0
+	type step struct {
+		name   string
+		policy absnfs.PolicyOptions
+		maxOK  int // at most this many of 8 immediate calls may be accepted afterwards (8: all must be)
 	}
-	cfg := absnfs.DefaultRateLimiterConfig()
-	cfg.PerIPRequestsPerSecond, cfg.PerIPBurstSize = 1, 2
-	cfg.PerConnectionRequestsPerSecond = 0
-	must(n.UpdatePolicyOptions(absnfs.PolicyOptions{EnableRateLimiting: true, RateLimitConfig: &cfg}))
-	accepted, denied := 0, 0
-	for i := 0; i < 8; i++ {
-		rep, err := rmCall(conn, uint32(10+i), progNFS, 3, 0, nil)
-		if err != nil {
-			break
-		}
-		if be32(rep[8:]) == 1 {
-			denied++
-		} else {
-			accepted++
-		}
+	scenarios := map[string][]step{
+		"off->tight":           {{"off", absnfs.PolicyOptions{EnableRateLimiting: false}, 8}, {"tight", absnfs.PolicyOptions{EnableRateLimiting: true, RateLimitConfig: &tight}, 3}},
+		"generous->tight":      {{"generous", absnfs.PolicyOptions{EnableRateLimiting: true, RateLimitConfig: &gen}, 8}, {"tight", absnfs.PolicyOptions{EnableRateLimiting: true, RateLimitConfig: &tight}, 3}},
+		"tight->generous":      {{"tight", absnfs.PolicyOptions{EnableRateLimiting: true, RateLimitConfig: &tight}, 3}, {"generous", absnfs.PolicyOptions{EnableRateLimiting: true, RateLimitConfig: &gen}, 8}},
+		"default->tight":       {{"tight", absnfs.PolicyOptions{EnableRateLimiting: true, RateLimitConfig: &tight}, 3}},
+		"generous->off->tight": {{"generous", absnfs.PolicyOptions{EnableRateLimiting: true, RateLimitConfig: &gen}, 8}, {"off", absnfs.PolicyOptions{EnableRateLimiting: false}, 8}, {"tight", absnfs.PolicyOptions{EnableRateLimiting: true, RateLimitConfig: &tight}, 3}},
 	}
-	r.noteCase("limiter-follows-update", true)
-	r.count("limiter-follows-update")
-	r.sample(map[string]any{"scenario": "connection opened, then UpdatePolicyOptions(EnableRateLimiting, per-IP burst 2), then 8 NULL calls on the old connection", "accepted": accepted, "denied": denied})
-	if accepted > 3 {
-		r.violate(Violation{Class: "C16/old-connection-not-limited", What: fmt.Sprintf("a connection opened before rate limiting was enabled (per-IP burst 2, 1/s) had %d of 8 immediate calls accepted afterwards", accepted),
-			Ops: []string{"limiter-follows-update"}})
+	names := make([]string, 0, len(scenarios))
+	for k := range scenarios {
+		names = append(names, k)
 	}
+	sort.Strings(names)
+	for _, name := range names {
+		steps := scenarios[name]
+		func() {
+			fs := NewRefFS()
+			n, err := absnfs.New(fs, absnfs.ExportOptions{})
+			must(err)
+			defer n.Close()
+			s, err := absnfs.NewServer(absnfs.ServerOptions{Port: 0, Hostname: "127.0.0.1", UseRecordMarking: true})
+			must(err)
+			s.SetHandler(n)
+			must(s.Listen())
+			defer s.Stop()
+			conn, err := net.DialTimeout("tcp", fmt.Sprintf("127.0.0.1:%d", s.GetPort()), 2*time.Second)
+			must(err)
+			defer conn.Close()
+			xid := uint32(1)
+			if _, err := rmCall(conn, xid, progNFS, 3, 0, nil); err != nil {
+				r.Notes = append(r.Notes, "limiter check skipped: "+err.Error())
+				return
+			}
+			for _, st := range steps {
+				cur := n.GetExportOptions()
+				p := st.policy
+				p.Squash, p.ReadOnly, p.Secure, p.AllowedIPs = cur.Squash, cur.ReadOnly, cur.Secure, cur.AllowedIPs
+				must(n.UpdatePolicyOptions(p))
+				accepted := 0
+				t0 := time.Now()
+				for i := 0; i < 8; i++ {
+					xid++
+					rep, err := rmCall(conn, xid, progNFS, 3, 0, nil)
+					if err != nil {
+						break
+					}
+					if be32(rep[8:]) != 1 {
+						accepted++
+					}
+				}
+				r.noteCase("limiter-follows-update "+name+" "+st.name, true)
+				r.count("limiter-follows-update")
+				// burst 2 at 1/s: two at once plus one per elapsed second (the calls normally take milliseconds)
+				if st.maxOK < 8 && accepted > st.maxOK+int(time.Since(t0)/time.Second) {
+					r.violate(Violation{Class: "C16/old-connection-not-limited", What: fmt.Sprintf("scenario %s: after the update to %q (per-IP burst 2, 1/s) returned, a connection opened and used before it had %d of 8 immediate calls accepted", name, st.name, accepted),
+						Ops: []string{"limiter-follows-update"}})
+				}
+				if st.maxOK == 8 && accepted < 8 {
+					r.violate(Violation{Class: "C16/old-connection-keeps-old-limits", What: fmt.Sprintf("scenario %s: after the update to %q returned, a connection opened and used before it had only %d of 8 calls accepted (still judged by the earlier configuration)", name, st.name, accepted),
+						Ops: []string{"limiter-follows-update"}})
+				}
+				time.Sleep(5 * time.Millisecond)
+			}
+		}()
+	}
+	r.sample(map[string]any{"scenario": "a connection opened and used, then successive UpdatePolicyOptions (off / generous / tight limits) each followed by 8 NULL calls on the old connection", "scenarios": names})
 }
 
 func checkC16(r *Result, rng *rand.Rand, thorough bool) {
